@@ -423,17 +423,32 @@ __fixup_fst(struct dseq_clo_s *clo)
 {
 	struct dt_dt_s tmp;
 	struct dt_dt_s old;
+	/* we walk from LST towards FST, for the range check (of times
+	 * in particular, which counts the turns) that's the sequence
+	 * with the bounds swapped and the direction reversed */
+	struct dseq_clo_s rev = *clo;
 
 	/* assume clo->dir has been computed already */
+	rev.fst = clo->lst;
+	rev.lst = clo->fst;
+	rev.dir = -clo->dir;
+
 	old = tmp = clo->lst;
 	date_neg_dur(clo->ite, clo->nite);
-	while (__in_range_p(tmp, clo)) {
+	while (__in_range_p(dt_fixup(tmp), &rev)) {
 		old = tmp;
-		tmp = __seq_next(tmp, clo);
+		tmp = __seq_next(tmp, &rev);
 	}
 	/* final checks */
-	old = __seq_this(old, clo);
+	old = __seq_this(old, &rev);
 	date_neg_dur(clo->ite, clo->nite);
+	if (dt_sandwich_only_t_p(old) &&
+	    (clo->dir > 0
+	     ? clo->fst.t.u > clo->lst.t.u : clo->fst.t.u < clo->lst.t.u)) {
+		/* the bounds are on either side of midnight, count the
+		 * turns the way the walk from FST to LST would have */
+		old.d.u = old.d.u ? 0U : (unsigned int)clo->dir;
+	}
 	/* fixup again with negated dur */
 	old = __seq_this(old, clo);
 	return old;
